@@ -28,7 +28,8 @@ def bounds(tier):
 
 def cases(shard, tier):
     d = shard['dtype']
-    for width, cast, dim, el, src in itertools.product(['s', 1, 3], CASTS[d], ['unset', 'equal', 'different'],
+    widths = ['s', 1, 3] if tier == 'quick' else ['s', 1, 2, 3, 5]
+    for width, cast, dim, el, src in itertools.product(widths, CASTS[d], ['unset', 'equal', 'different'],
                                                        ['unset', 'equal', 'larger', 'moredims', 'smaller'],
                                                        ['inline', 'dict']):
         yield {'dtype': d, 'topo': shard['topo'], 'width': width, 'cast': cast, 'dim': dim, 'el': el, 'src': src}
@@ -102,7 +103,7 @@ def make_spec(c):
 
 
 def run_case(c):
-    must_raise = c['dim'] == 'different' or (c['el'] == 'smaller' and c['width'] == 3)
+    must_raise = c['dim'] == 'different' or (c['el'] == 'smaller' and c['width'] not in ('s', 1))
     sp = make_spec(c)
     res = S.run_spec(sp)
     viol = []
